@@ -132,7 +132,8 @@ def b64val (c : UInt8) : Option Nat :=
   if 65 ≤ x && x ≤ 90 then some (x - 65) else if 97 ≤ x && x ≤ 122 then some (x - 71)
   else if 48 ≤ x && x ≤ 57 then some (x + 4) else if x == 43 then some 62 else if x == 47 then some 63 else none
 
-/-- a well-formed challenge key: 24 base64 characters ending in "==" that stand for 16 bytes (`isValidChallengeKey`) -/
+/-- a well-formed challenge key per RFC 6455 §4.2.1: 24 base64 characters ending in "==" that stand for 16 bytes.
+    NOT what `commCheck` tests (it accepts any non-empty key: documented leniency); used to describe the Dialer's keys. -/
 def validKey (k : Bytes) : Bool :=
   k.length == 24 && (k.take 22).all (fun c => (b64val c).isSome) && k.drop 22 == [61, 61] &&
     (match b64val (k.getD 21 0) with | some v => v % 16 == 0 | none => false)
@@ -200,7 +201,7 @@ def commCheck (u : UCfg) (r : Req) : Except HErr Negotiated :=
   else if !headerContains r.header (s "Sec-Websocket-Version") (s "13") then .error .badVersion
   else if (values u.respHeader (s "Sec-Websocket-Extensions")).length > 0 then .error .unsupportedExt
   else if !u.originOk then .error .origin
-  else if !validKey (get r.header (s "Sec-Websocket-Key")) then .error .badKey
+  else if (get r.header (s "Sec-Websocket-Key")).isEmpty then .error .badKey
   else
     let compress := u.enableCompression && (parseExtensions r.header).any (fun e => e.name == s "permessage-deflate")
     .ok { key := get r.header (s "Sec-Websocket-Key"), subprotocol := selectSubprotocol u r, compress }
